@@ -389,7 +389,9 @@ def raw_fingerprint(scan):
     """Order-insensitive content fingerprint that ignores empty attribute-less container groups
     (refused calls may leave an empty 'dimensions'/'features'/'properties' group behind, which no API call can see)."""
     objs = scan["objects"]
-    empty = {a for a, o in objs.items() if o["kind"] == "group" and o.get("nlinks") == 0 and not o["attrs"]}
+    # (a new member of the ROOT group is not such a container: the file layout has exactly /data and /metadata there)
+    empty = {a for a, o in objs.items() if o["kind"] == "group" and o.get("nlinks") == 0 and not o["attrs"]
+             and not any(p.count("/") == 1 and p not in ("/data", "/metadata") for p in o["paths"])}
     rows = []
     for addr, o in objs.items():
         if addr in empty:
